@@ -276,13 +276,15 @@ struct Case {
     bidi: bool,
     k: usize,
     order: Order,
+    /// interleaved order only: the second group of stalled streams is of the other kind
+    mixed: bool,
 }
 
 const CLOSE_CODE: u32 = 7_000_001;
 const CLOSE_REASON: &[u8] = b"c07 clean close";
 
 async fn run_case(c: &Case, rep: &mut Report) {
-    let ctx = format!("{:?}|{:?}|{}|k={}|{:?}", c.role, c.kind, if c.bidi { "bi" } else { "uni" }, c.k, c.order);
+    let ctx = format!("{:?}|{:?}|{}{}|k={}|{:?}", c.role, c.kind, if c.bidi { "bi" } else { "uni" }, if c.mixed { "+other" } else { "" }, c.k, c.order);
     rep.eval(ctx.clone());
     let mut script = Script::plain(c.role);
     script.pause = ms(1);
@@ -331,7 +333,7 @@ async fn run_case(c: &Case, rep: &mut Report) {
                 send_healthy(&live, "mid", m).await?;
                 batches.push("mid");
                 if c.k > k1 {
-                    stalled.push(open_stalled(&live, c.kind, c.bidi, c.k - k1).await?);
+                    stalled.push(open_stalled(&live, c.kind, if c.mixed { !c.bidi } else { c.bidi }, c.k - k1).await?);
                 }
                 send_healthy(&live, "after", m).await?;
                 batches.push("after");
@@ -430,7 +432,7 @@ async fn run_case(c: &Case, rep: &mut Report) {
 
 pub fn run(args: &Args) -> Report {
     let mut rep = Report::new();
-    let ks: &[usize] = if args.thorough { &[1, 2, 3, 4, 5, 8, 16] } else { &[1, 4, 5] };
+    let ks: &[usize] = if args.thorough { &[1, 2, 3, 4, 5, 8, 9, 16, 33] } else { &[1, 4, 5, 9, 17] };
     let roles: &[Role] = if args.thorough { &[Role::Server, Role::Client] } else { &[Role::Server, Role::Client] };
     let mut cases = vec![];
     let mut i = 0usize;
@@ -443,14 +445,15 @@ pub fn run(args: &Args) -> Report {
                         if !args.thorough {
                             // quick: both orders for the server role, one rotating order for the client role
                             let keep = match role {
-                                Role::Server => order != Order::Interleaved || k == 5,
+                                Role::Server => (k <= 5 && (order != Order::Interleaved || k == 5)) || (k > 5 && order == Order::Interleaved),
                                 Role::Client => i % 3 == 0,
                             };
                             if !keep {
                                 continue;
                             }
                         }
-                        cases.push(Case { role, kind, bidi, k, order });
+                        let mixed = order == Order::Interleaved && k >= 8;
+                        cases.push(Case { role, kind, bidi, k, order, mixed });
                     }
                 }
             }
